@@ -859,6 +859,10 @@ fn main() {
                 }
             }
             let _done = Done(f.name, lo, hi, t0);
+            if r.over_budget_frac(0.8) {
+                r.cap_hit(&format!("family {} inputs [{lo}, {hi}) not run: wall cap", f.name));
+                return (fi, st);
+            }
             while cur < hi {
                 let (next, death) = run_child(f.name, cur, hi, thorough, &targets, &mut st);
                 if death.is_none() {
@@ -919,7 +923,7 @@ fn main() {
             json!({"what": f.what, "inputs_generated": n, "inputs_run": st.inputs, "ok": st.ok, "typed_err": st.err, "panics": st.panics, "over_budget": st.over_budget, "over_2s": st.over_time,
                    "children": st.children, "child_deaths": st.deaths, "max_peak_allocation_bytes": st.max_peak, "max_wall_us": st.max_micros as u64, "typed_errors": distinct_err}),
         );
-        r.guard(&format!("family_ran_every_input:{}", f.name), st.inputs as usize == *n);
+        r.guard(&format!("family_ran_every_input_or_cap_reported:{}", f.name), st.inputs as usize == *n || r.over_budget_frac(0.8));
         r.guard(&format!("family_nonempty:{}", f.name), *n > 0);
         r.guard(&format!("family_saw_typed_errors:{}", f.name), st.err > 0);
         viols.extend(st.violations);
